@@ -1,11 +1,15 @@
 // C16: B3 (single / multi header) and Jaeger propagation round-trip identity and the sampling decision (Engine B).
 //  part 0  inject  : three propagators x (all 256 flag bytes x 4 id pairs, every (position, nibble) one-hot / all-f /
 //                    mixed / zero trace and span id, no span at all) x local / remote original; oracle: Extract(Inject(x))
-//                    is remote, has the same ids and IsSampled() == x.IsSampled() for every flags byte; whatever is
-//                    written for an invalid context is never installed by Extract.
+//                    is remote, has the same ids and IsSampled() == x.IsSampled() for every flags byte and no other flag
+//                    bit; the injected text is a documented form under the reference decoders (same ids, same sampled
+//                    decision); Fields() = the keys Inject wrote; whatever is written for an invalid context is never
+//                    installed by Extract.
 //  part 1  extract : deviation-bounded generator over documented and near-documented b3 / X-B3-* / uber-trace-id seeds
 //                    (<= m point mutations per execution, over byte classes, truncation at every length, tails, any of
 //                    the headers of the format) against independent reference decoders, three-valued oracle.
+#include <algorithm>
+
 #include <opentelemetry/trace/propagation/b3_propagator.h>
 #include <opentelemetry/trace/propagation/jaeger.h>
 
@@ -17,6 +21,7 @@ namespace prop = opentelemetry::trace::propagation;
 namespace {
 
 const char *const kB3 = "b3", *const kBT = "X-B3-TraceId", *const kBS = "X-B3-SpanId", *const kBF = "X-B3-Sampled", *const kJ = "uber-trace-id";
+const char *const kBFl = "X-B3-Flags", *const kBP = "X-B3-ParentSpanId";  // documented B3 multi headers the statement says nothing about
 const char *const kPropName[3] = {"b3single", "b3multi", "jaeger"};
 
 std::unique_ptr<context::propagation::TextMapPropagator> make_prop(int which) {
@@ -32,6 +37,7 @@ struct Ref {
   std::string tid, sid;  // 32 / 16 lower-case digits (valid unless MUST_REJECT)
   int sampled = -1;      // 1 / 0: the documented meaning of the sampling field; -1: not documented, unchecked
   bool debug = false;    // the sampling field is the B3 debug flag
+  int other_bits = 0;    // Jaeger: the bits of the flags field other than bit 0 (debug 0x02, firehose 0x08, ...); valid when sampled >= 0
 };
 
 // 1..digits hex digits of either case, value non-zero -> left-padded lower-case
@@ -70,8 +76,15 @@ Ref ref_b3_fields(const std::string &tid, const std::string &sid, bool has_flag,
   return r;
 }
 Ref ref_b3(const MapCarrier &car) {
-  std::string b3 = car.value(kB3), flag = car.value(kBF);
-  Ref multi = ref_b3_fields(car.value(kBT), car.value(kBS), !flag.empty(), flag, false, "", false);
+  std::string b3 = car.value(kB3), flag = car.value(kBF), dbg = car.value(kBFl), parent = car.value(kBP);
+  Ref multi = ref_b3_fields(car.value(kBT), car.value(kBS), !flag.empty(), flag, !parent.empty(), parent, false);
+  // X-B3-Flags: 1 is the multi-header spelling of the debug flag. The statement decides the debug flag only in
+  // its 'd' spelling ("B3 debug flag 'd' as sampled"): the ids are judged as usual, the sampling decision is
+  // unchecked unless X-B3-Sampled says "sampled" as well; a value other than 0 / 1 is not a documented form.
+  if (!dbg.empty()) {
+    if (dbg != "0" && dbg != "1" && multi.cls == MUST_ACCEPT) multi.cls = DONT_CARE;
+    if (dbg != "0" && multi.sampled != 1) multi.sampled = -1;
+  }
   if (b3.empty()) return multi;  // an empty value is indistinguishable from an absent header
   std::vector<std::string> f = split_all(b3, '-');
   Ref single;
@@ -82,14 +95,28 @@ Ref ref_b3(const MapCarrier &car) {
   if (multi.cls != MUST_REJECT) { multi.cls = DONT_CARE; return multi; }
   return single;
 }
-Ref ref_jaeger(const std::string &v) {
+Ref ref_jaeger(const std::string &raw) {
   Ref r;
+  // Jaeger clients may URL-encode the value (':' written as %3A). The statement does not list that variant: such
+  // a value is read with the separators decoded and is never must-accept (accept with these ids, or reject).
+  std::string v;
+  bool url_encoded = false;
+  for (size_t i = 0; i < raw.size(); ++i) {
+    if (raw[i] == '%' && i + 2 < raw.size() && raw[i + 1] == '3' && (raw[i + 2] == 'A' || raw[i + 2] == 'a')) { v += ':'; i += 2; url_encoded = true; }
+    else v += raw[i];
+  }
   std::vector<std::string> f = split_all(v, ':');
   if (f.size() < 2 || !dec_id(f[0], 32, &r.tid) || !dec_id(f[1], 16, &r.sid)) return r;
   bool doc = f.size() == 4 && doc_tid(f[0]) && doc_sid(f[1]) && !f[2].empty() && f[2].size() <= 16 && all_lhex(f[2]);
-  if (f.size() >= 4 && (f[3].size() == 1 || f[3].size() == 2) && all_xhex(f[3])) r.sampled = nibble(f[3].back()) & 1;
+  if (f.size() >= 4 && (f[3].size() == 1 || f[3].size() == 2) && all_xhex(f[3])) {
+    int val = 0;
+    for (char ch : f[3]) val = val * 16 + nibble(ch);
+    r.sampled = val & 1;
+    r.other_bits = val & 0xfe;
+  }
   if (!(f.size() == 4 && (f[3].size() == 1 || f[3].size() == 2) && all_lhex(f[3]))) doc = false;
-  r.cls = doc ? MUST_ACCEPT : DONT_CARE;
+  r.cls = doc && !url_encoded ? MUST_ACCEPT : DONT_CARE;
+  if (url_encoded && f.size() != 4) r.sampled = -1;  // which field holds the flags depends on whether the separators are decoded
   return r;
 }
 
@@ -152,6 +179,22 @@ void run_inject(vf::Ctx &c) {
   c.step();
   VFP_CHECK(c, tid_hex(trace::GetSpan(cx)->GetContext()) == th, P + ":inject-modified-context", "Inject changed the context it read");
   std::string injected = car.show();
+  // what the independent reference decoders make of the injected text (taken now: Extract's checker scribbles the carrier)
+  const Ref rinj = which == 2 ? ref_jaeger(car.value(kJ)) : ref_b3(car);
+  // Fields(): "Gets the fields set in the carrier by the `inject` method" (text_map_propagator.h)
+  {
+    std::vector<std::string> fields, keys = car.sets;
+    pr->Fields([&](nostd::string_view k) noexcept { fields.emplace_back(k.data(), k.size()); return true; });
+    std::sort(fields.begin(), fields.end());
+    std::sort(keys.begin(), keys.end());
+    keys.erase(std::unique(keys.begin(), keys.end()), keys.end());
+    bool ok = valid ? fields == keys : std::includes(fields.begin(), fields.end(), keys.begin(), keys.end());
+    if (!ok) {
+      std::string shown_fields;
+      for (auto &f : fields) shown_fields += f + " ";
+      c.fail(P + ":fields-differ-from-inject", "Fields() reports { " + shown_fields + "}, Inject(" + what + ") wrote " + injected);
+    }
+  }
 
   c.stage("Extract(injected)");
   Extracted e = extract_checked(c, *pr, car, product ? 1 : c.pick("caller", 2), P);
@@ -170,6 +213,22 @@ void run_inject(vf::Ctx &c) {
     // keep going when this is a listed finding
     c.report(P + ":roundtrip-sampled", vf::sfmt("flags byte 0x%02x (sampled=%d) came back with sampled=%d; injected %s", flags, (int)sc.IsSampled(), (int)e.sampled, injected.c_str()));
   }
+  // The injected text is of the documented format: the reference decoder (which knows nothing of this Extract's
+  // leniencies: upper case, short ids, ignored fields) classifies it must-accept, with the same ids and the same
+  // sampled decision. Not judged: the B3 debug spelling 'd' for a sampled context, Jaeger flag bits other than bit 0.
+  VFP_CHECK(c, rinj.cls == MUST_ACCEPT, P + ":inject-undocumented-format",
+            "Inject(" + what + ") wrote " + injected + ", which is not a documented form of the header (lower-case hex, 32/16-digit trace id, 16-digit span id, " +
+                (which == 2 ? "four ':'-separated fields, parent id of 1-16 hex digits, flags of 1-2 hex digits)" : "sampling field 0 / 1 / d or absent)"));
+  VFP_CHECK(c, rinj.tid == th, P + ":inject-wrong-trace-id", "Inject(" + what + ") wrote " + injected + ", which encodes the trace id " + rinj.tid);
+  VFP_CHECK(c, rinj.sid == sh, P + ":inject-wrong-span-id", "Inject(" + what + ") wrote " + injected + ", which encodes the span id " + rinj.sid);
+  VFP_CHECK(c, rinj.sampled == (int)sc.IsSampled(), P + ":inject-wrong-sampled",
+            vf::sfmt("Inject(%s) wrote %s, whose documented meaning is sampled=%d", what.c_str(), injected.c_str(), rinj.sampled));
+  if (rinj.debug) c.counted("inject_writes_debug_flag");
+  if (rinj.other_bits) c.counted("inject_writes_other_jaeger_flag_bits");
+  // B3 defines no flag besides the sampling decision, and the injected Jaeger flags carry none here: the extracted
+  // trace flags have no bit other than "sampled"
+  if (which != 2 || rinj.other_bits == 0)
+    VFP_CHECK(c, e.flags <= 1, P + ":extra-flag-bits", vf::sfmt("Extract(Inject(%s)) has trace flags 0x%02x; injected %s", what.c_str(), e.flags, injected.c_str()));
   c.state(P + "|" + injected);
   c.outcome(P + "|" + e.tid + e.sid + (e.sampled ? "1" : "0"));
   c.sample(std::string(kPropName[which]) + ": Inject(" + what + ") => " + injected + " => Extract => " + e.canon());
@@ -213,10 +272,16 @@ const std::vector<Seed> &seeds(int format) {
     v[1].push_back(Seed{{{kB3, T2 + "-" + S2 + "-0"}, {kBT, T1}, {kBS, S1}, {kBF, "1"}}});  // the single header wins
     v[1].push_back(Seed{{{kB3, "0"}, {kBT, T1}, {kBS, S1}, {kBF, "1"}}});
     v[1].push_back(Seed{{{kB3, T2 + "-" + S2}, {kBT, T1}, {kBS, S1}, {kBF, "1"}}});
+    // documented B3 multi headers outside the statement (appended: the indices above are used by `core`):
+    // debug flag as X-B3-Flags: 1 without / against a sampling header, and a parent span id
+    v[1].push_back(Seed{{{kBT, T1}, {kBS, S1}, {kBFl, "1"}}});
+    v[1].push_back(Seed{{{kBT, T1}, {kBS, S1}, {kBF, "0"}, {kBFl, "1"}}});
+    v[1].push_back(Seed{{{kBT, T1}, {kBS, S1}, {kBF, "1"}, {kBP, P1}}});
     // Jaeger
     for (const std::string &s : {T1 + ":" + S1 + ":0:01", T1 + ":" + S1 + ":0:00", T64 + ":" + S1 + ":0:1", T1 + ":" + S1 + ":" + P1 + ":03", T1 + ":" + S1 + ":0:02",
                                  one_t + ":" + one_s + ":0:1", T1 + ":" + S1 + ":0", std::string("80F198EE56343BA864FE8B2A57D3EFF7:E457B5A2E4D86BD1:0:1"), T1 + ":" + S1 + ":0:ff",
-                                 std::string()})
+                                 std::string(),
+                                 T1 + "%3A" + S1 + "%3A0%3A01" /* URL-encoded separators: outside the statement */})
       v[2].push_back(Seed{{{kJ, s}}});
   }
   return v[format];
@@ -226,7 +291,7 @@ void run_extract(vf::Ctx &c) {
   int format = c.pick("format", 3);
   const auto &sd = seeds(format);
   int si = c.pick("seed", (int)sd.size());
-  static const std::vector<const char *> keys[3] = {{kB3, kBT, kBS, kBF}, {kB3, kBT, kBS, kBF}, {kJ}};
+  static const std::vector<const char *> keys[3] = {{kB3, kBT, kBS, kBF, kBFl, kBP}, {kB3, kBT, kBS, kBF, kBFl, kBP}, {kJ}};
   std::map<std::string, std::string> hdr;
   for (auto &kv : sd[si].h) hdr[kv.first] = kv.second;
   std::string desc = vf::sfmt("%s seed%d", format == 0 ? "b3-single" : format == 1 ? "b3-multi" : "jaeger", si);
@@ -271,6 +336,14 @@ void run_extract(vf::Ctx &c) {
     if (r.sampled >= 0)
       VFP_CHECK(c, (int)e.sampled == r.sampled, P + (r.debug ? ":debug-flag-not-sampled" : ":wrong-sampled"),
                 vf::sfmt("decoded sampled=%d, the documented meaning is sampled=%d: %s", (int)e.sampled, r.sampled, shown.c_str()));
+    // trace flags other than "sampled": the B3 formats define none, so none may appear. Jaeger defines debug (0x02)
+    // and firehose (0x08): when the header's flags field carries a bit other than bit 0 the statement ("the same
+    // sampled decision, whatever other flag bits ...") does not say whether it may show up in the trace flags -
+    // counted only; when the field carries none, none may appear.
+    if (format != 2 || (r.sampled >= 0 && r.other_bits == 0))
+      VFP_CHECK(c, e.flags <= 1, P + ":extra-flag-bits", vf::sfmt("decoded trace flags 0x%02x carry bits that the header does not: %s", e.flags, shown.c_str()));
+    else if (r.sampled >= 0)
+      c.counted((e.flags & 0xfe) ? "jaeger_other_flag_bits_in_trace_flags" : "jaeger_other_flag_bits_dropped");
   }
   c.state(P + "|" + e.canon());
   c.outcome(P + "|" + e.canon());
